@@ -968,7 +968,8 @@ DLLIMPORT cfg_value_t *cfg_setopt(cfg_t *cfg, cfg_opt_t *opt, const char *value)
 			}
 			errno = 0;
 			i = strtol(int_str, &endptr, radix);
-			if (*endptr != '\0') {
+			if (*endptr != '\0' || (endptr == int_str && radix != 8) ||
+			    (radix != 0 && int_str[strspn(int_str, "0123456789abcdefABCDEF")] != '\0')) {
 				cfg_error(cfg, _("invalid integer value for option '%s'"), opt->name);
 				return NULL;
 			}
